@@ -659,9 +659,9 @@ func init() {
 				}
 				switch rng.Intn(4) {
 				case 0:
-					pl.P.Mn = 1 + rng.Int63n(pl.P.Sides)
+					pl.P.Mn = rng.Int63n(pl.P.Sides + 4)
 				case 1:
-					pl.P.Mx = 1 + rng.Int63n(pl.P.Sides)
+					pl.P.Mx = rng.Int63n(pl.P.Sides + 3)
 				}
 			case 3:
 				pl.Fam = "fate"
@@ -790,9 +790,9 @@ func init() {
 					}
 					switch rng.Intn(4) {
 					case 0:
-						pt.P.Mn = 1 + rng.Int63n(pt.P.Sides)
+						pt.P.Mn = rng.Int63n(pt.P.Sides + 4) // also above the sides
 					case 1:
-						pt.P.Mx = 1 + rng.Int63n(pt.P.Sides)
+						pt.P.Mx = rng.Int63n(pt.P.Sides + 3) // also 0
 					}
 				}
 				term, _ := vmSource(pt.Fam, pt.P, rng.Intn(1000))
